@@ -410,7 +410,7 @@ def execute(stim):
                 rec('inited')
 
             async def actions():
-                bg.append(asyncio.create_task(watch_init()))
+                bg.append(asyncio.create_task(watch_init(), name='harness-watch'))
                 for op in stim['actions']:
                     delay = st['t0'] + op['t'] * TICK - loop.time()
                     if delay > 0:
@@ -459,7 +459,7 @@ def execute(stim):
                     elif k == 'shutdown_bg':
                         # shutdown() is running in another task; after one yield it has made its
                         # request (this very task goes on before the simulation task is resumed)
-                        bg.append(asyncio.create_task(circuit.shutdown()))
+                        bg.append(asyncio.create_task(circuit.shutdown(), name='harness-shutdown'))
                         await asyncio.sleep(0)
                         rec('stopreq')
                     elif k == 'sigterm':
@@ -480,14 +480,28 @@ def execute(stim):
                     r = await actions()
                     if r == 'end':
                         await asyncio.sleep(stim.get('linger', 40) * TICK)
+                async def slow_cancel():
+                    # a second supporting coroutine that needs a moment to handle its cancellation:
+                    # run() waits for it, whatever made the simulation end
+                    try:
+                        await asyncio.sleep(10 ** 6)
+                    except asyncio.CancelledError:
+                        await asyncio.sleep(2 * TICK)
+                        raise
+                supp = [support()] + ([slow_cancel()] if stim.get('slowcancel') else [])
+                mine = {t for t in asyncio.all_tasks()}
                 try:
-                    await edzed.run(support())
+                    await edzed.run(*supp)
                     runres = NONE
                 except asyncio.CancelledError:
                     runres = 0
                 except BaseException as err:     # noqa
                     runres = ecode(err)
                 task = circuit._simtask
+                # tasks that edzed created and named (supporting tasks, block tasks) and that are still
+                # pending at the very moment run() returns
+                st['run_left'] = len([t for t in asyncio.all_tasks() if t not in mine and not t.done()
+                                      and t.get_name().startswith('edzed')])
             else:
                 task = asyncio.create_task(circuit.run_forever())
                 await actions()
@@ -505,7 +519,7 @@ def execute(stim):
                 except BaseException:
                     pass
             if runres is not None:
-                rec('runres', code=runres)
+                rec('runres', code=runres, left=st.get('run_left', 0))
             try:
                 await circuit.shutdown()
                 rec('shutres', code=NONE)
